@@ -27,7 +27,10 @@ use write_fonts::tables::gpos::builders::{
 };
 use write_fonts::tables::layout as wl;
 use write_fonts::tables::layout::builders::{Builder, DeviceOrDeltas, LookupBuilder, Metric};
-use write_fonts::tables::variations::ivs_builder::VariationStoreBuilder;
+use write_fonts::tables::variations::ivs_builder::{RemapVariationIndices, VariationStoreBuilder};
+use write_fonts::tables::variations::{RegionAxisCoordinates, VariationRegion};
+use font_types::F2Dot14;
+use read_fonts::tables::variations::{DeltaSetIndex, ItemVariationStore};
 
 fn g16(v: u16) -> GlyphId16 {
     GlyphId16::new(v)
@@ -43,6 +46,9 @@ enum Dev {
     None,
     Device { start: u16, end: u16, fmt: u16, words: Vec<u16> },
     VarIdx(u16, u16),
+    /// a variation-index table resolved through the item variation store: the deltas at the three
+    /// probe locations (axis0=+1), (axis0=-1), (axis1=+1)  (= the input deltas of regions R0, R1, R2)
+    Deltas([i32; 3]),
     Bad(String),
 }
 
@@ -55,6 +61,7 @@ impl Dev {
                 format!("D({start}-{end} f{fmt} {})", w.join("."))
             }
             Dev::VarIdx(o, i) => format!("V({o},{i})"),
+            Dev::Deltas(d) => format!("Δ({},{},{})", d[0], d[1], d[2]),
             Dev::Bad(e) => format!("BAD({e})"),
         }
     }
@@ -88,15 +95,6 @@ fn show_pv(p: &Option<PV>) -> String {
         None => "nothing".into(),
         Some((a, b)) => format!("[{} | {}]", a.show(), b.show()),
     }
-}
-
-/// "nothing" and an all-zero, device-free value pair have the same effect
-fn pv_effective_eq(a: &Option<PV>, b: &Option<PV>) -> bool {
-    let z = |o: &Option<PV>| match o {
-        None => true,
-        Some((x, y)) => x.is_zero() && y.is_zero(),
-    };
-    a == b || (z(a) && z(b))
 }
 
 #[derive(Clone, Debug, PartialEq, Eq)]
@@ -235,8 +233,149 @@ fn dev_b(d: &DeviceOrDeltas) -> Dev {
     match d {
         DeviceOrDeltas::None => Dev::None,
         DeviceOrDeltas::Device(d) => device_w(d),
-        DeviceOrDeltas::Deltas(_) => Dev::Bad("deltas".into()),
+        DeviceOrDeltas::Deltas(v) => {
+            // the three regions are single-axis tents peaking at the three probe locations
+            let mut out = [0i32; 3];
+            for (r, d) in v {
+                match (0..3).find(|k| region(*k) == *r) {
+                    Some(k) => out[k] += *d as i32,
+                    None => return Dev::Bad("unknown region".into()),
+                }
+            }
+            Dev::Deltas(out)
+        }
     }
+}
+
+fn f2(v: f32) -> F2Dot14 {
+    F2Dot14::from_f32(v)
+}
+
+/// R0: axis 0 in (0, 1, 1];  R1: axis 0 in [-1, -1, 0);  R2: axis 1 in (0, 1, 1]
+fn region(k: usize) -> VariationRegion {
+    let ax = |s: f32, p: f32, e: f32| RegionAxisCoordinates::new(f2(s), f2(p), f2(e));
+    let idle = || ax(0.0, 0.0, 0.0);
+    VariationRegion::new(match k {
+        0 => vec![ax(0.0, 1.0, 1.0), idle()],
+        1 => vec![ax(-1.0, -1.0, 0.0), idle()],
+        _ => vec![idle(), ax(0.0, 1.0, 1.0)],
+    })
+}
+
+/// the compiled item variation store (the variation-index tables of a GPOS point into it)
+struct IvsCtx {
+    bytes: Option<Vec<u8>>,
+}
+
+impl IvsCtx {
+    /// variation index → the deltas it selects at the three probe locations
+    fn resolve(&self, d: &Dev) -> Dev {
+        let Dev::VarIdx(o, i) = d else { return d.clone() };
+        let Some(bytes) = &self.bytes else { return Dev::Bad(format!("V({o},{i}) without a variation store")) };
+        let ivs = match ItemVariationStore::read(FontData::new(bytes)) {
+            Ok(x) => x,
+            Err(e) => return Dev::Bad(format!("ivs {e:?}")),
+        };
+        let probes: [[F2Dot14; 2]; 3] = [[f2(1.0), f2(0.0)], [f2(-1.0), f2(0.0)], [f2(0.0), f2(1.0)]];
+        let mut out = [0i32; 3];
+        for (k, c) in probes.iter().enumerate() {
+            match ivs.compute_delta(DeltaSetIndex { outer: *o, inner: *i }, c) {
+                Ok(v) => out[k] = v,
+                Err(e) => return Dev::Bad(format!("ivs delta {e:?}")),
+            }
+        }
+        Dev::Deltas(out)
+    }
+    fn vr(&self, v: &VR) -> VR {
+        VR { v: v.v, d: [self.resolve(&v.d[0]), self.resolve(&v.d[1]), self.resolve(&v.d[2]), self.resolve(&v.d[3])] }
+    }
+    fn pv(&self, p: &Option<PV>) -> Option<PV> {
+        p.as_ref().map(|(a, b)| (self.vr(a), self.vr(b)))
+    }
+    fn anc(&self, a: &Anc) -> Anc {
+        Anc { x: a.x, y: a.y, pt: a.pt, xd: self.resolve(&a.xd), yd: self.resolve(&a.yd) }
+    }
+    fn mb(&self, p: &Option<MB>) -> Option<MB> {
+        p.as_ref().map(|(a, b)| (self.anc(a), self.anc(b)))
+    }
+}
+
+// ---- distinct device tables / delta sets by id ----
+
+/// a Device table whose contents are an injective function of `id` (< 2^24); three delta formats
+fn device_of(id: u32) -> wl::Device {
+    match id % 3 {
+        0 => {
+            // 2-bit deltas, 12 sizes
+            let v: Vec<i8> = (0..12).map(|k| ((id >> (2 * k)) & 3) as i8 - 2).collect();
+            wl::Device::new(8, 19, &v)
+        }
+        1 => {
+            // 4-bit deltas, 7 sizes
+            let v: Vec<i8> = (0..7).map(|k| if k == 0 { -8 } else { ((id >> (4 * (k - 1))) & 15) as i8 - 8 }).collect();
+            wl::Device::new(10, 16, &v)
+        }
+        _ => {
+            // 8-bit deltas, 4 sizes
+            let v = [100i8, (id & 0xff) as u8 as i8, ((id >> 8) & 0xff) as u8 as i8, ((id >> 16) & 0xff) as u8 as i8];
+            wl::Device::new(11, 14, &v)
+        }
+    }
+}
+
+/// a delta set that is an injective function of `id`; R0 always present (never all zero)
+fn deltas_of(id: u32) -> Vec<(VariationRegion, i16)> {
+    let (sub, k) = (id % 4, id / 4);
+    let lo = (k % 30000) as i16 + 1;
+    let hi = (k / 30000) as i16;
+    let t: [i16; 3] = match sub {
+        0 if hi == 0 => [lo, 0, 0],
+        0 => [lo, -hi, -hi],
+        1 => [lo, 100 + hi, 0],
+        2 => [lo, 0, 100 + hi],
+        _ => [lo, 200 + hi, 300 + hi],
+    };
+    (0..3).filter(|k| t[*k] != 0).map(|k| (region(k), t[k])).collect()
+}
+
+/// the `id`-th distinct device-or-deltas: even ids are Device tables, odd ids delta sets
+fn dod_of(id: u32) -> DeviceOrDeltas {
+    if id % 2 == 0 {
+        DeviceOrDeltas::Device(device_of(id / 2))
+    } else {
+        DeviceOrDeltas::Deltas(deltas_of(id / 2))
+    }
+}
+
+/// a value record with scalar fields `smask` and device fields `dmask` (bit 0 x_placement,
+/// 1 y_placement, 2 x_advance, 3 y_advance); every device field takes the next unused id
+fn mk_full(v: i16, smask: u8, dmask: u8, next_id: &mut u32) -> ValueRecordBuilder {
+    let mut b = ValueRecordBuilder::new();
+    if smask & 1 != 0 {
+        b = b.with_x_placement(v);
+    }
+    if smask & 2 != 0 {
+        b = b.with_y_placement(v.wrapping_add(1));
+    }
+    if smask & 4 != 0 {
+        b = b.with_x_advance(v.wrapping_add(2));
+    }
+    if smask & 8 != 0 {
+        b = b.with_y_advance(v.wrapping_add(3));
+    }
+    for k in 0..4 {
+        if dmask >> k & 1 == 1 {
+            let d = dod_of(*next_id);
+            *next_id += 1;
+            b = match k {
+                0 => b.with_x_placement_device(d),
+                1 => b.with_y_placement_device(d),
+                2 => b.with_x_advance_device(d),
+                _ => b.with_y_advance_device(d),
+            };
+        }
+    }
+    b
 }
 
 fn metric_b(m: &Option<Metric>) -> (i16, Dev) {
@@ -1152,7 +1291,11 @@ fn gen_pp2(rng: &mut Rng, permille: u64, variant: u64) -> PairSpec {
 
 /// d. MarkToBase: M marks in C classes, B bases, distinct anchors ≈ permille/1000 × 64 KiB
 ///   variant 0 plain, 1 with null anchors, 2 with contour points / devices / re-inserts,
-///   3 shared anchors, 4 dense and nearly empty classes side by side
+///   3 shared anchors, 4 dense and nearly empty classes side by side,
+///   5 EVERY anchor (mark and base) with an x and a y device, all pairwise distinct (Device
+///     tables of three delta formats and delta sets → variation indices),
+///   6 every anchor with its own contour point; a quarter with only an x device, a quarter with
+///     only a y device (the contour point is then dropped, as documented)
 fn gen_mb(rng: &mut Rng, permille: u64, variant: u64) -> MarkSpec {
     let mut m = MarkSpec::new();
     let target = (permille as usize * 65536) / 1000;
@@ -1167,10 +1310,42 @@ fn gen_mb(rng: &mut Rng, permille: u64, variant: u64) -> MarkSpec {
     };
     // variant 4: per-class fill
     let class_fill: Vec<u64> = (0..c).map(|_| if variant == 4 { *rng.pick(&[3u64, 30, 100]) } else { fill }).collect();
+    let anchor_bytes = match variant {
+        5 => 30,
+        6 => 16,
+        _ => 8,
+    };
+    let mut next_dev = 1u32;
+    let mut next_pt = 0u16;
+    let mut decorate = |rng: &mut Rng, mut a: AnchorBuilder| -> AnchorBuilder {
+        match variant {
+            5 => {
+                a = a.with_x_device(dod_of(next_dev)).with_y_device(dod_of(next_dev + 1));
+                next_dev += 2;
+            }
+            6 => {
+                next_pt = next_pt.wrapping_add(1);
+                a = a.with_contourpoint(next_pt);
+                match rng.below(4) {
+                    0 => {
+                        a = a.with_x_device(dod_of(next_dev));
+                        next_dev += 1;
+                    }
+                    1 => {
+                        a = a.with_y_device(dod_of(next_dev));
+                        next_dev += 1;
+                    }
+                    _ => {}
+                }
+            }
+            _ => {}
+        }
+        a
+    };
     let b = if tiny {
         rng.range(1, 20) as usize
     } else {
-        ((target * 100) / (8 * c * fill as usize)).clamp(20, 3000)
+        ((target * 100) / (anchor_bytes * c * fill as usize)).clamp(20, 3000)
     };
     let nm = if tiny { rng.range(c as i64, c as i64 + 6) } else { rng.range(c as i64, c as i64 + 150) } as usize;
     let (mut mgl, lm) = glyph_run(rng, nm);
@@ -1192,6 +1367,9 @@ fn gen_mb(rng: &mut Rng, permille: u64, variant: u64) -> MarkSpec {
         }
         if variant == 2 && rng.chance(1, 25) {
             a = a.with_y_device(rng.pick(&devs).clone());
+        }
+        if variant >= 5 {
+            a = decorate(rng, a);
         }
         m.mark(*g, k, a);
         if variant == 2 && rng.chance(1, 30) {
@@ -1224,6 +1402,9 @@ fn gen_mb(rng: &mut Rng, permille: u64, variant: u64) -> MarkSpec {
                     a = a.with_y_device(rng.pick(&devs).clone());
                 }
             }
+            if variant >= 5 {
+                a = decorate(rng, a);
+            }
             m.base(*g, k, a);
             if variant == 2 && rng.chance(1, 50) {
                 m.base(*g, k, AnchorBuilder::new(x.wrapping_add(9000), y));
@@ -1235,6 +1416,307 @@ fn gen_mb(rng: &mut Rng, permille: u64, variant: u64) -> MarkSpec {
         12 + 2 * nm + 2 * b + 10 * nm + 2 + 2 * b * c + 6 * n_anchor
     );
     m
+}
+
+
+/// f. PairPos whose value records carry ALL value-format fields incl. the four device fields, with
+///    pairwise DISTINCT device tables / delta sets (distinct per record and per field, so object
+///    de-duplication cannot hide a mis-wired offset); permille counts the device tables too
+///   variant 0 class pairs, both records all 8 fields in every cell
+///   variant 1 class pairs, random field masks per record (record 1 only / record 2 only / both),
+///             per-cell random subsets of the device fields (null offsets in between), empty cells
+///   variant 2 glyph pairs, both records all 8 fields
+///   variant 3 glyph pairs, a palette of field masks (several format-1 subtables), uneven rows
+///   variant 4 class pairs as variant 0 + glyph-pair exceptions (devices / zeros / scalars) for
+///             glyphs of those classes
+fn gen_pairdev(rng: &mut Rng, permille: u64, variant: u64) -> PairSpec {
+    let mut p = PairSpec::new();
+    let tiny = permille == 0;
+    let target = (permille as usize * 65536) / 1000;
+    let mut next = 1u32 + (rng.below(1000) as u32) * 2;
+    let salt = rng.below(60001);
+    let class_based = matches!(variant, 0 | 1 | 4);
+    let mut n_cells = 0usize;
+    let masks_desc;
+    if class_based {
+        let (sm1, dm1, sm2, dm2): (u8, u8, u8, u8) = if variant == 1 {
+            match rng.below(4) {
+                0 => (rng.below(16) as u8, 0, rng.below(16) as u8, rng.range(1, 15) as u8),
+                1 => (rng.below(16) as u8, rng.range(1, 15) as u8, rng.below(16) as u8, 0),
+                _ => (rng.below(16) as u8, rng.range(1, 15) as u8, rng.below(16) as u8, rng.range(1, 15) as u8),
+            }
+        } else {
+            (15, 15, 15, 15)
+        };
+        masks_desc = format!("{sm1:x}.{dm1:x}/{sm2:x}.{dm2:x}");
+        let bits = |m: u8| m.count_ones() as usize;
+        let cell_est = 2 * (bits(sm1 | dm1) + bits(dm1) + bits(sm2 | dm2) + bits(dm2)) + 8 * (bits(dm1) + bits(dm2));
+        let k2 = rng.range(1, 7) as usize;
+        // a class-1 record: the class-0 column holds an empty record (null offsets, no device tables)
+        let rec_bytes = 2 * (bits(sm1 | dm1) + bits(dm1) + bits(sm2 | dm2) + bits(dm2));
+        let row_est = k2 * cell_est + rec_bytes + 6;
+        let k1 = if tiny { rng.range(1, 4) as usize } else { (target / row_est).clamp(2, 2500) };
+        let sz1: Vec<usize> = (0..k1).map(|_| rng.range(1, 3) as usize).collect();
+        let sz2: Vec<usize> = (0..k2).map(|_| rng.range(1, 2) as usize).collect();
+        let (mut pool1, _) = glyph_run(rng, sz1.iter().sum());
+        let (mut pool2, _) = glyph_run(rng, sz2.iter().sum());
+        if rng.chance(1, 2) {
+            rng.shuffle(&mut pool1);
+        }
+        if rng.chance(1, 2) {
+            rng.shuffle(&mut pool2);
+        }
+        let mut it = pool1.iter().copied();
+        for n in &sz1 {
+            let gl: Vec<u16> = it.by_ref().take(*n).collect();
+            p.add_class1(gl);
+        }
+        let mut it = pool2.iter().copied();
+        for n in &sz2 {
+            let gl: Vec<u16> = it.by_ref().take(*n).collect();
+            p.add_class2(gl);
+        }
+        // glyph-pair exceptions first or last (the builder always emits them first)
+        let exceptions = |p: &mut PairSpec, rng: &mut Rng, next: &mut u32| {
+            let n = if tiny { rng.range(1, 6) } else { rng.range(50, 300) } as usize;
+            for k in 0..n {
+                let g1 = if rng.chance(4, 5) { *rng.pick(&pool1) } else { rng.next() as u16 };
+                let g2 = if rng.chance(4, 5) { *rng.pick(&pool2) } else { rng.next() as u16 };
+                let v = val(k, 7, salt);
+                let (a, b) = match rng.below(4) {
+                    0 => (mk_vrb(VS::XAdv, 0, None), mk_vrb(VS::Empty, 0, None)),
+                    1 => (mk_full(v, 15, 15, next), mk_full(v ^ 9, 15, 15, next)),
+                    2 => (mk_full(0, 4, 4, next), mk_full(0, 0, 2, next)),
+                    _ => (mk_vrb(VS::All4, v, None), mk_vrb(VS::XAdv, v ^ 3, None)),
+                };
+                p.pair(g1, a, g2, b);
+            }
+        };
+        let exc_first = rng.chance(1, 2);
+        if variant == 4 && exc_first {
+            exceptions(&mut p, rng, &mut next);
+        }
+        let mut order: Vec<usize> = (0..k1).collect();
+        rng.shuffle(&mut order);
+        for a in order {
+            let mut any = false;
+            for b in 0..k2 {
+                if variant == 1 && rng.chance(1, 10) && !(b == k2 - 1 && !any) {
+                    continue;
+                }
+                any = true;
+                let (c1, c2) = if variant == 1 {
+                    let sub = |rng: &mut Rng, m: u8| (0..4).fold(0u8, |acc, k| if m >> k & 1 == 1 && rng.chance(7, 10) { acc | 1 << k } else { acc });
+                    (sub(rng, dm1), sub(rng, dm2))
+                } else {
+                    (dm1, dm2)
+                };
+                let v = val(a, b, salt);
+                n_cells += 1;
+                p.classes(a, mk_full(v, sm1, c1, &mut next), b, mk_full(v ^ 5, sm2, c2, &mut next));
+            }
+        }
+        if variant == 4 && !exc_first {
+            exceptions(&mut p, rng, &mut next);
+        }
+        p.desc = format!(
+            "pairdev{{v{variant} class k1={k1} k2={k2} masks(scalars.devices)={masks_desc} cells={n_cells} pairs={} devices/deltas={} est={}}}",
+            p.glyph.len(),
+            next,
+            k1 * row_est
+        );
+    } else {
+        let palette: Vec<(u8, u8, u8, u8)> = if variant == 2 {
+            vec![(15, 15, 15, 15)]
+        } else {
+            (0..rng.range(2, 4)).map(|_| (rng.below(16) as u8, rng.below(16) as u8, rng.below(16) as u8, rng.below(16) as u8)).chain([(4, 4, 0, 8)]).collect()
+        };
+        masks_desc = palette.iter().map(|m| format!("{:x}.{:x}/{:x}.{:x}", m.0, m.1, m.2, m.3)).collect::<Vec<_>>().join(",");
+        let bits = |m: u8| m.count_ones() as usize;
+        let cell_est = 2 + palette
+            .iter()
+            .map(|m| 2 * (bits(m.0 | m.1) + bits(m.1) + bits(m.2 | m.3) + bits(m.3)) + 8 * (bits(m.1) + bits(m.3)))
+            .sum::<usize>()
+            / palette.len();
+        let total = if tiny { rng.range(1, 12) as usize } else { target / cell_est };
+        let maxrow = if variant == 3 { 40 } else { 8 };
+        let mut sizes = vec![];
+        let mut acc = 0;
+        while acc < total {
+            let n = rng.range(1, maxrow) as usize;
+            sizes.push(n);
+            acc += n;
+        }
+        let (g1s, _) = glyph_run(rng, sizes.len());
+        let extra2 = rng.below(30) as usize;
+        let (pool2, _) = glyph_run(rng, maxrow as usize + extra2);
+        for (i, n) in sizes.iter().enumerate() {
+            let off = rng.below((pool2.len() - n) as u64 + 1) as usize;
+            for j in 0..*n {
+                let (sm1, dm1, sm2, dm2) = *rng.pick(&palette);
+                let v = val(i, j, salt);
+                n_cells += 1;
+                p.pair(g1s[i], mk_full(v, sm1, dm1, &mut next), pool2[off + j], mk_full(v ^ 1, sm2, dm2, &mut next));
+            }
+        }
+        p.desc = format!(
+            "pairdev{{v{variant} glyph n1={} pairs={n_cells} masks(scalars.devices)={masks_desc} devices/deltas={} est={}}}",
+            sizes.len(),
+            next,
+            n_cells * cell_est
+        );
+    }
+    p
+}
+
+/// the value-record pairs an exception / a class rule may carry: all-zero in several encodings,
+/// empty value formats, partially zero, zero scalar + device, non-zero
+fn overlap_value(rng: &mut Rng, next: &mut u32) -> (ValueRecordBuilder, ValueRecordBuilder, &'static str) {
+    let v = rng.range(-300, 300) as i16;
+    let nz = if v == 0 { 17 } else { v };
+    match rng.below(14) {
+        0 | 1 => (mk_vrb(VS::XAdv, 0, None), mk_vrb(VS::Empty, 0, None), "xadv0/empty"),
+        2 => (mk_vrb(VS::XAdv, 0, None), mk_vrb(VS::XAdv, 0, None), "xadv0/xadv0"),
+        3 => (mk_full(0, 15, 0, next).with_y_placement(0).with_x_advance(0).with_y_advance(0), mk_vrb(VS::Empty, 0, None), "all4-0/empty"),
+        4 => (mk_vrb(VS::Empty, 0, None), mk_vrb(VS::Empty, 0, None), "empty/empty"),
+        5 => (mk_vrb(VS::YPla, 0, None), mk_vrb(VS::YPla, 0, None), "ypla0/ypla0"),
+        6 => (mk_vrb(VS::XAdvXPla, 0, None), mk_vrb(VS::Empty, 0, None), "xadv0+xpla1/empty"),
+        7 => (mk_vrb(VS::XAdv, 0, None), mk_vrb(VS::XAdv, nz, None), "xadv0/xadvN"),
+        8 => (mk_vrb(VS::Empty, 0, None), mk_vrb(VS::XAdv, 0, None), "empty/xadv0"),
+        9 => (mk_full(0, 4, 4, next).with_x_advance(0), mk_vrb(VS::Empty, 0, None), "xadv0+dev/empty"),
+        10 | 11 => (mk_vrb(VS::XAdv, nz, None), mk_vrb(VS::Empty, 0, None), "xadvN/empty"),
+        12 => (mk_vrb(VS::All4, nz, None), mk_vrb(VS::XAdvXPla, nz, None), "all4N/xadvN+xpla"),
+        _ => (mk_full(nz, 15, 15, next), mk_full(nz ^ 3, 5, 10, next), "full-dev/partial-dev"),
+    }
+}
+
+/// g. exception-before-rule patterns: glyph pairs OVERLAPPING class-pair rules for the same glyphs
+///    (`pos A V 0; pos @A @V -50;`), zero-valued class cells, empty value formats, pairs and
+///    cells repeated with other values (first glyph pair wins, last class cell wins)
+///   variant 0 glyph pairs inserted before the class rules, 1 after, 2 interleaved,
+///   3 a class matrix large enough to be split, exceptions all over it
+fn gen_overlap(rng: &mut Rng, variant: u64) -> PairSpec {
+    let mut p = PairSpec::new();
+    let mut next = 1u32;
+    let big = variant == 3;
+    let (k1, k2) = if big { (rng.range(700, 1100) as usize, rng.range(40, 60) as usize) } else { (rng.range(1, 6) as usize, rng.range(1, 5) as usize) };
+    let sz = |rng: &mut Rng| if big { rng.range(1, 2) } else { rng.range(1, 4) } as usize;
+    let sz1: Vec<usize> = (0..k1).map(|_| sz(rng)).collect();
+    let sz2: Vec<usize> = (0..k2).map(|_| sz(rng)).collect();
+    let (mut pool1, _) = glyph_run(rng, sz1.iter().sum());
+    // class-2 glyphs may coincide with class-1 glyphs (A A pairs)
+    let (mut pool2, _) = if !big && rng.chance(1, 3) { (pool1.clone(), "") } else { glyph_run(rng, sz2.iter().sum::<usize>().max(1)) };
+    rng.shuffle(&mut pool1);
+    rng.shuffle(&mut pool2);
+    while pool2.len() < sz2.iter().sum::<usize>() {
+        let g = rng.next() as u16;
+        if !pool2.contains(&g) {
+            pool2.push(g);
+        }
+    }
+    let mut it = pool1.iter().copied();
+    for n in &sz1 {
+        let gl: Vec<u16> = it.by_ref().take(*n).collect();
+        p.add_class1(gl);
+    }
+    let mut it = pool2.iter().copied();
+    for n in &sz2 {
+        let gl: Vec<u16> = it.by_ref().take(*n).collect();
+        p.add_class2(gl);
+    }
+    enum Op {
+        Pair(u16, u16),
+        Cell(usize, usize),
+    }
+    let mut pair_ops = vec![];
+    let npairs = if big { rng.range(300, 900) } else { rng.range(3, 40) } as usize;
+    for _ in 0..npairs {
+        let g1 = if rng.chance(5, 6) { *rng.pick(&pool1) } else { rng.next() as u16 };
+        let g2 = if rng.chance(5, 6) { *rng.pick(&pool2) } else { rng.next() as u16 };
+        pair_ops.push(Op::Pair(g1, g2));
+        if rng.chance(1, 5) {
+            pair_ops.push(Op::Pair(g1, g2)); // repeated with another value: the first one wins
+        }
+    }
+    let mut cell_ops = vec![];
+    let mut rows: Vec<usize> = (0..k1).collect();
+    rng.shuffle(&mut rows);
+    for a in rows {
+        let mut any = false;
+        for b in 0..k2 {
+            if !big && rng.chance(1, 4) && !(b == k2 - 1 && !any) {
+                continue; // cell without rule
+            }
+            any = true;
+            cell_ops.push(Op::Cell(a, b));
+            if !big && rng.chance(1, 8) {
+                cell_ops.push(Op::Cell(a, b)); // repeated: the last one wins
+            }
+        }
+    }
+    let ops: Vec<Op> = match variant {
+        0 | 3 => pair_ops.into_iter().chain(cell_ops).collect(),
+        1 => cell_ops.into_iter().chain(pair_ops).collect(),
+        _ => {
+            // interleave, keeping the relative order within each kind
+            let mut out = vec![];
+            let (mut a, mut b) = (pair_ops.into_iter().peekable(), cell_ops.into_iter().peekable());
+            while a.peek().is_some() || b.peek().is_some() {
+                let take_a = b.peek().is_none() || (a.peek().is_some() && rng.chance(1, 2));
+                out.push(if take_a { a.next().unwrap() } else { b.next().unwrap() });
+            }
+            out
+        }
+    };
+    let mut kinds: BTreeMap<&'static str, usize> = BTreeMap::new();
+    let salt = rng.below(60001);
+    for op in ops {
+        match op {
+            Op::Pair(g1, g2) => {
+                let (a, b, k) = overlap_value(rng, &mut next);
+                *kinds.entry(k).or_insert(0) += 1;
+                p.pair(g1, a, g2, b);
+            }
+            Op::Cell(a, b) => {
+                if big {
+                    // one value format for the whole matrix (otherwise the records get huge)
+                    let v = if rng.chance(1, 10) { 0 } else { val(a, b, salt) };
+                    p.classes(a, mk_vrb(VS::XAdv, v, None), b, mk_vrb(VS::Empty, 0, None));
+                } else {
+                    let (x, y, _) = overlap_value(rng, &mut next);
+                    p.classes(a, x, b, y);
+                }
+            }
+        }
+    }
+    let kinds: Vec<String> = kinds.iter().map(|(k, n)| format!("{k}:{n}")).collect();
+    p.desc = format!(
+        "overlap{{v{variant} k1={k1} k2={k2} cells={} pairs={} pair-kinds=[{}] c1={:?} c2={:?}}}",
+        p.cells.len(),
+        p.glyph.len(),
+        kinds.join(" "),
+        if big { vec![] } else { p.c1_sets.clone() },
+        if big { vec![] } else { p.c2_sets.clone() }
+    );
+    p
+}
+
+/// h. one Gpos holding a device-laden PairPos, a MarkToBase with anchor devices and an overlap
+///    lookup (extension promotion is decided per lookup; the variation store is shared)
+fn gen_multi_dev(rng: &mut Rng, permille: u64, variant: u64) -> Vec<Spec> {
+    let f = |rng: &mut Rng| permille * (50 + rng.below(81)) / 100;
+    let (fa, fb) = (f(rng), f(rng).max(100));
+    let mut specs = vec![
+        Spec::Pair(gen_pairdev(rng, fa, variant % 5)),
+        Spec::Mark(gen_mb(rng, fb, 5 + variant % 2)),
+        Spec::Pair(gen_overlap(rng, variant % 3)),
+    ];
+    if variant % 2 == 1 {
+        let fc = f(rng);
+        specs.push(Spec::Pair(gen_pairdev(rng, fc, (variant + 2) % 5)));
+    }
+    rng.shuffle(&mut specs);
+    specs
 }
 
 /// Deterministic scenarios (no random choice): the smallest inputs found for known defects.
@@ -1396,6 +1878,33 @@ fn pair_probes(rng: &mut Rng, p: &PairSpec, c: &CLookup) -> Vec<(u16, u16)> {
             for b in [0, n2 - 1, rng.below(n2 as u64) as usize] {
                 for g1 in &p.c1_sets[a] {
                     for g2 in &p.c2_sets[b] {
+                        set.insert((*g1, *g2));
+                    }
+                }
+            }
+        }
+    }
+    // small class sets: every (class-1 glyph, class-2 glyph) combination and every class-1 glyph
+    // with glyphs outside all class-2 sets; every glyph-rule glyph against every class-2 glyph
+    let n1g: usize = p.c1_sets.iter().map(|x| x.len()).sum();
+    let n2g: usize = p.c2_sets.iter().map(|x| x.len()).sum();
+    if n1g > 0 && n1g * (n2g + 4) <= 6000 {
+        for a in &p.c1_sets {
+            for g1 in a {
+                for b in &p.c2_sets {
+                    for g2 in b {
+                        set.insert((*g1, *g2));
+                    }
+                }
+                for g2 in [0u16, 0xFFFF, rng.next() as u16, g1.wrapping_add(1)] {
+                    set.insert((*g1, g2));
+                }
+            }
+        }
+        if keys.len() * n2g <= 6000 {
+            for (g1, _) in &keys {
+                for b in &p.c2_sets {
+                    for g2 in b {
                         set.insert((*g1, *g2));
                     }
                 }
@@ -1566,7 +2075,7 @@ fn where_<T>(r: &Result<Option<(usize, T)>, String>) -> String {
     }
 }
 
-fn check_pair(s: &mut Session, rng: &mut Rng, rep: &mut Reporter, tag: &str, li: usize, p: &PairSpec, l: &wl::Lookup<wg::PairPos>, c: &CLookup) {
+fn check_pair(s: &mut Session, rng: &mut Rng, rep: &mut Reporter, tag: &str, li: usize, p: &PairSpec, l: &wl::Lookup<wg::PairPos>, c: &CLookup, ivs: &IvsCtx) {
     let usubs: Vec<USub> = l.subtables.iter().map(|st| usub_pair(st)).collect();
     let u1 = usubs.iter().filter(|u| matches!(u, USub::P1 { .. })).count();
     let u2 = usubs.len() - u1;
@@ -1581,11 +2090,18 @@ fn check_pair(s: &mut Session, rng: &mut Rng, rep: &mut Reporter, tag: &str, li:
     }
     if c.subs.len() > usubs.len() {
         s.count("split-triggered");
+        let dev = rg::ValueFormat::ANY_DEVICE_OR_VARIDX;
         if c1 > u1 {
             s.count("split-triggered:pairpos1");
+            if c.subs.iter().any(|x| matches!(x, CSub::P1 { t, .. } if t.value_format1().intersects(dev) && t.value_format2().intersects(dev))) {
+                s.count("split-triggered:pairpos1:devices-in-both-records");
+            }
         }
         if c2 > u2 {
             s.count("split-triggered:pairpos2");
+            if c.subs.iter().any(|x| matches!(x, CSub::P2 { t, .. } if t.value_format1().intersects(dev) && t.value_format2().intersects(dev))) {
+                s.count("split-triggered:pairpos2:devices-in-both-records");
+            }
         }
     } else {
         s.count("no-split");
@@ -1628,9 +2144,32 @@ fn check_pair(s: &mut Session, rng: &mut Rng, rep: &mut Reporter, tag: &str, li:
             },
         );
         if p.exact {
+            // STRICT: the full resolved value (four scalars + the contents of the four device /
+            // variation-index tables, per record) of the first matching subtable, and `nothing`
+            // exactly where no rule applies (an explicit all-zero rule is a match, not `nothing`)
             let exp = p.expected(g1, g2);
-            let got = strip(&rc).map(|o| o.cloned());
-            let ok = matches!(&got, Ok(g) if pv_effective_eq(g, &exp));
+            let got = strip(&rc).map(|o| ivs.pv(&o.cloned()));
+            let ok = matches!(&got, Ok(g) if *g == exp);
+            match &exp {
+                None => s.count("e2e:pair-expected:nothing"),
+                Some((a, b)) if a.is_zero() && b.is_zero() => {
+                    if p.glyph.contains_key(&(g1, g2)) {
+                        s.count("e2e:pair-expected:explicit-zero-glyph-pair");
+                        if p.c1_of.contains_key(&g1) {
+                            s.count("e2e:pair-expected:explicit-zero-glyph-pair-shadowing-class-rule");
+                        }
+                    } else {
+                        s.count("e2e:pair-expected:zero-class-cell");
+                    }
+                }
+                Some((a, b)) => {
+                    let nd = a.d.iter().chain(b.d.iter()).filter(|d| **d != Dev::None).count();
+                    s.count(&format!("e2e:pair-expected:value-with-{nd}-devices"));
+                    if a.d.iter().any(|d| *d != Dev::None) && b.d.iter().any(|d| *d != Dev::None) {
+                        s.count("e2e:pair-expected:devices-in-both-records");
+                    }
+                }
+            }
             rep.check(
                 s,
                 "e2e-pairpos:compiled=input-rules",
@@ -1652,7 +2191,7 @@ fn check_pair(s: &mut Session, rng: &mut Rng, rep: &mut Reporter, tag: &str, li:
     }
 }
 
-fn check_mark(s: &mut Session, rng: &mut Rng, rep: &mut Reporter, tag: &str, li: usize, m: &MarkSpec, l: &wl::Lookup<wg::MarkBasePosFormat1>, c: &CLookup) {
+fn check_mark(s: &mut Session, rng: &mut Rng, rep: &mut Reporter, tag: &str, li: usize, m: &MarkSpec, l: &wl::Lookup<wg::MarkBasePosFormat1>, c: &CLookup, ivs: &IvsCtx) {
     let usubs: Vec<USub> = l
         .subtables
         .iter()
@@ -1687,7 +2226,14 @@ fn check_mark(s: &mut Session, rng: &mut Rng, rep: &mut Reporter, tag: &str, li:
             (Ok(a), Ok(b)) => a == b,
             _ => false,
         };
-        let ok_e = matches!(strip(&rc), Ok(g) if g == exp.as_ref());
+        let ok_e = matches!(strip(&rc), Ok(g) if ivs.mb(&g.cloned()) == exp);
+        if let Some((ma, ba)) = &exp {
+            let nd = [&ma.xd, &ma.yd, &ba.xd, &ba.yd].iter().filter(|d| ***d != Dev::None).count();
+            s.count(&format!("e2e:mark-expected:anchors-with-{nd}-devices"));
+            if ma.pt.is_some() || ba.pt.is_some() {
+                s.count("e2e:mark-expected:contour-point");
+            }
+        }
         let detail = |other: String| {
             format!(
                 "compiled {} {} ; {other} (mark class {:?}, base has classes {:?})",
@@ -1743,7 +2289,7 @@ fn run_scenario(s: &mut Session, rng: &mut Rng, kind: &str, tag: &str, mut specs
     let mut rep = Reporter { reported: BTreeMap::new() };
     // 1. the real builders → unsplit subtables → Gpos
     let built = catch(|| {
-        let mut vs = VariationStoreBuilder::new(0);
+        let mut vs = VariationStoreBuilder::new(2);
         let mut lookups: Vec<wg::PositionLookup> = vec![];
         for sp in specs.iter_mut() {
             match sp {
@@ -1757,10 +2303,27 @@ fn run_scenario(s: &mut Session, rng: &mut Rng, kind: &str, tag: &str, mut specs
                 }
             }
         }
-        wg::Gpos::new(Default::default(), Default::default(), wg::PositionLookupList::new(lookups))
+        let mut gpos = wg::Gpos::new(Default::default(), Default::default(), wg::PositionLookupList::new(lookups));
+        // delta sets → item variation store; pending variation indices → final (outer, inner)
+        let ivs = if vs.is_empty() {
+            None
+        } else {
+            let (store, remap) = vs.build();
+            gpos.remap_variation_indices(&remap);
+            Some(write_fonts::dump_table(&store).map_err(|e| format!("{e}")))
+        };
+        (gpos, ivs)
     });
-    let gpos = match built {
-        Ok(g) => g,
+    let (gpos, ivs) = match built {
+        Ok((g, None)) => (g, IvsCtx { bytes: None }),
+        Ok((g, Some(Ok(b)))) => {
+            s.count("e2e:with-variation-store");
+            (g, IvsCtx { bytes: Some(b) })
+        }
+        Ok((_, Some(Err(e)))) => {
+            rep.check(s, "gpos-compiles", false, input, || clip(format!("item variation store: {e}")));
+            return;
+        }
         Err(e) => {
             rep.check(s, "gpos-compiles", false, input, || clip(format!("builder panicked: {e}")));
             return;
@@ -1822,8 +2385,8 @@ fn run_scenario(s: &mut Session, rng: &mut Rng, kind: &str, tag: &str, mut specs
     // 4./5. walk and compare
     for (li, sp) in specs.iter().enumerate() {
         match (sp, &*wlookups[li]) {
-            (Spec::Pair(p), wg::PositionLookup::Pair(l)) => check_pair(s, rng, &mut rep, tag, li, p, l, &comp[li]),
-            (Spec::Mark(m), wg::PositionLookup::MarkToBase(l)) => check_mark(s, rng, &mut rep, tag, li, m, l, &comp[li]),
+            (Spec::Pair(p), wg::PositionLookup::Pair(l)) => check_pair(s, rng, &mut rep, tag, li, p, l, &comp[li], &ivs),
+            (Spec::Mark(m), wg::PositionLookup::MarkToBase(l)) => check_mark(s, rng, &mut rep, tag, li, m, l, &comp[li], &ivs),
             _ => unreachable!(),
         }
     }
@@ -1851,6 +2414,10 @@ fn one(s: &mut Session, rng: &mut Rng, kind: &str, permille: u64, variant: u64) 
         "pairpos2" => vec![Spec::Pair(gen_pp2(rng, permille, variant))],
         "markbase" => vec![Spec::Mark(gen_mb(rng, permille, variant))],
         "multi" => gen_multi(rng, permille, variant),
+        "pairdev" => vec![Spec::Pair(gen_pairdev(rng, permille, variant))],
+        "overlap" => vec![Spec::Pair(gen_overlap(rng, variant))],
+        "markdev" => vec![Spec::Mark(gen_mb(rng, permille, 5 + variant % 2))],
+        "multi-dev" => gen_multi_dev(rng, permille, variant),
         "fixed" => gen_fixed(permille, variant),
         _ => return,
     };
@@ -1908,6 +2475,37 @@ pub fn run(cfg: &Config, s: &mut Session, rng: &mut Rng) {
         for (p, v) in [(500, 0), (700, 1), (900, 0), (900, 1), (1200, 0), (1500, 1)] {
             let p = j(rng, p);
             one(s, rng, "multi", p, v);
+        }
+    }
+    // device-laden value records / anchors and exception-before-rule patterns (added later: kept
+    // after the older scenarios so that their random stream is unchanged)
+    let rounds2 = if cfg.thorough() { 10 } else { 2 };
+    for round in 0..rounds2 {
+        let j = |rng: &mut Rng, p: u64| if round == 0 { p } else { p * (90 + rng.below(21)) / 100 };
+        for i in 0..10 {
+            one(s, rng, "pairdev", 0, i % 5);
+        }
+        for i in 0..24 {
+            one(s, rng, "overlap", 0, i % 3);
+        }
+        one(s, rng, "overlap", 0, 3);
+        for i in 0..4 {
+            one(s, rng, "markdev", 0, i % 2);
+        }
+        for (p, v) in [
+            (950, 0), (990, 0), (1010, 0), (1050, 0), (2500, 0), (1000, 1), (1100, 1), (2200, 1), (960, 2), (1000, 2), (1040, 2),
+            (2500, 2), (1000, 3), (1200, 3), (3000, 3), (1000, 4), (1500, 4), (4000, 0), (3300, 4), (3700, 1),
+        ] {
+            let p = j(rng, p);
+            one(s, rng, "pairdev", p, v);
+        }
+        for (p, v) in [(950, 0), (1000, 0), (1100, 0), (2500, 0), (1000, 1), (1200, 1), (3000, 1), (4000, 0)] {
+            let p = j(rng, p);
+            one(s, rng, "markdev", p, v);
+        }
+        for (p, v) in [(400, 0), (800, 1), (1200, 2), (1500, 3)] {
+            let p = j(rng, p);
+            one(s, rng, "multi-dev", p, v);
         }
     }
     if std::env::var("C16_E2E_VERBOSE").is_ok() {
